@@ -304,11 +304,118 @@ def run_h(history):
     return {"key": ex.canon(), "enabled": ex.enabled(), "viols": list(ex.viols), "label": ex.label}
 
 
+# ---------------------------------------------------------------- F part
+# process-table changes *during* a call: every OS access of pid_exists(n) /
+# pids() / a complete process_iter(attrs) x {vanish, zombie} (+ all pairs)
+F_OPS = ["pid_exists:A", "pid_exists:B", "pid_exists:tid", "pids", "iter:none", "iter:np", "iter:n"]
+
+
+def f_world(cfg):
+    w = World(ncpus=2)
+    w.spawn(1, ppid=0, comm=b"init", start=1)
+    w.spawn(w.mypid, ppid=1, comm=b"caller", start=50)
+    for s in ("A", "B", "C"):
+        w.tick(1)
+        w.spawn(cfg.pid[s], ppid=1, comm=b"p" + s.encode())
+    w.tids[cfg.tid] = w.procs[cfg.pid["A"]]
+    return w
+
+
+def f_apply(world, dev, kind, subj, pid):
+    if pid in world.tids:
+        pid = world.tids[pid].pid
+    if dev == "vanish":
+        world.vanish(pid)
+    elif dev == "zombie":
+        if pid in world.procs and not world.procs[pid].zombie:
+            world.exit(pid)
+
+
+def f_run(arg):
+    op, plan, warm = arg
+    import psutil
+    from vf.explore.deviate import PlanHook
+    cfg = _CFG
+    w = f_world(cfg)
+    use_world(w)
+    if warm:
+        list(psutil.process_iter())          # populate the cache first
+    listed0 = sorted(w.procs)
+    hook = PlanHook(plan, f_apply)
+    w.hook = hook
+    w.logging = False
+    if op.startswith("pid_exists:"):
+        k = op.split(":")[1]
+        n = cfg.tid if k == "tid" else cfg.pid[k]
+        out = outcome(psutil.pid_exists, n)
+    elif op == "pids":
+        out = outcome(psutil.pids)
+    else:
+        akey = op.split(":")[1]
+        out = outcome(lambda: [(p.pid, getattr(p, "info", None)) for p in psutil.process_iter(attrs=ATTRS[akey])])
+    w.hook = None
+    listed1 = sorted(w.procs)
+    v = None
+    if out[0] != "ok":
+        v = ("f:%s-raised:%s" % (op.split(":")[0], out[1]), "%s raised %r under %r at %r"
+             % (op, out, hook.applied, [hook.accesses[i] for i, _ in hook.applied]))
+    elif op.startswith("pid_exists:"):
+        k = op.split(":")[1]
+        n = cfg.tid if k == "tid" else cfg.pid[k]
+        ok = {n in listed0, n in listed1} if k != "tid" else {False}
+        if out[1] not in ok:
+            v = ("f:pid_exists-value", "%s -> %r, table before %r after %r" % (op, out[1], listed0, listed1))
+    elif op == "pids":
+        if out[1] != sorted(out[1]) or not (set(listed1) <= set(out[1]) <= set(listed0)):
+            v = ("f:pids-value", "pids() -> %r, table before %r after %r" % (out[1], listed0, listed1))
+    else:
+        pids = [x[0] for x in out[1]]
+        akey = op.split(":")[1]
+        if pids != sorted(set(pids)) or not (set(pids) <= set(listed0)):
+            v = ("f:iter-order-or-extra", "yielded %r, table before %r" % (pids, listed0))
+        elif not (set(listed1) <= set(pids)):
+            v = ("f:iter-missing-live", "yielded %r but %r stayed listed throughout" % (pids, listed1))
+        elif ATTRS[akey] is not None:
+            for pid_, info in out[1]:
+                if not isinstance(info, dict) or set(info) != set(ATTRS[akey]):
+                    v = ("f:info-keys", "pid %d info %r" % (pid_, info))
+    return {"accesses": hook.accesses, "viol": v, "label": "%s:%s" % (op.split(":")[0], out[0] if out[0] == "ok" else out[1])}
+
+
+def f_part(ctx):
+    tasks = []
+    for op in F_OPS:
+        for warm in (False, True):
+            base = f_run((op, (), warm))
+            tasks.append((op, (), warm))
+            n = len(base["accesses"])
+            singles = [(i, d) for i in range(n) if base["accesses"][i][2] is not None for d in ("vanish", "zombie")]
+            for sd in singles:
+                tasks.append((op, (sd,), warm))
+            # pairs: second deviation at a later access of the *re-run*
+            for sd in singles:
+                r1 = f_run((op, (sd,), warm))
+                for j in range(sd[0] + 1, len(r1["accesses"])):
+                    if r1["accesses"][j][2] is not None:
+                        for d2 in ("vanish", "zombie"):
+                            tasks.append((op, (sd, (j, d2)), warm))
+    res = ctx.pmap(f_run, tasks)
+    viols, labels = [], {}
+    for t, r in zip(tasks, res):
+        labels[r["label"]] = labels.get(r["label"], 0) + 1
+        if r["viol"]:
+            viols.append({"cause": r["viol"][0], "msg": r["viol"][1],
+                          "case": {"f": {"op": t[0], "plan": [list(x) for x in t[1]], "warm": t[2]}}})
+    return len(tasks), labels, viols, sample([{"op": t[0], "plan": t[1], "warm": t[2]} for t in tasks], 4)
+
+
 def run(ctx):
     global _CFG
     _CFG = Cfg(ctx.seed, ctx.thorough)
     depth = 7 if ctx.thorough else 6
     res = bfs(run_h, depth, ctx)
+    nf, flabels, fviols, fsamples = f_part(ctx)
+    res["violations"] = res["violations"] + fviols
     cov = {
         "states": res["states"], "transitions": res["transitions"],
         "traces_validated_against_impl": res["transitions"],
@@ -317,6 +424,7 @@ def run(ctx):
         "samples": sample(res["samples"], 8),
         "exhaustive": res["capped"] is None, "capped": res["capped"],
         "alphabet": {"slots": list(_CFG.slots), "generators": _CFG.max_gens, "attrs": list(_CFG.attrs)},
+        "fault_runs_during_a_call": nf, "fault_run_outcomes": flabels, "fault_run_samples": fsamples,
         "state_invariants": "pids() and pid_exists(n) for n in {-1,0,A,B,C,tid,absent,2^31-1,2^31,2^64} evaluated in every reached state",
     }
     return {"coverage": cov, "violations": res["violations"],
@@ -327,6 +435,10 @@ def run(ctx):
 def replay(ctx, case):
     global _CFG
     _CFG = Cfg(ctx.seed, ctx.thorough)
+    if "f" in case:
+        f = case["f"]
+        r = f_run((f["op"], tuple(tuple(x) for x in f["plan"]), f["warm"]))
+        return {"violated": r["viol"] is not None, "viol": r["viol"], "accesses": [list(map(str, a)) for a in r["accesses"]]}
     ex = Exec(_CFG)
     trace = []
     for ev in case["history"]:
